@@ -1,3 +1,77 @@
-From Regal Require Import Model.Version.
-Theorem c20_placeholder : True. Proof. exact I. Qed.
-Print Assumptions c20_placeholder.
+(* C20 — a file's Rego version comes from its nearest configured directory, however spelled.
+   Only statements here; proofs live in Proofs/Version.v and Proofs/PathLemmas.v.
+
+   Model (Model/Version.v): [version_from_map] is rules.RegoVersionFromVersionsMap with Go's
+   path.Join / filepath.Dir / strings.HasPrefix on byte strings (Base/PathModel.v); the map is the
+   list of its entries in the order the Go [range] happens to visit them. [all_rego_versions] is
+   config.AllRegoVersions (manifests, then project-wide, then roots; later insert wins).
+   [key_of ks] spells a key from its components, [file_of ds base] is "/d1/…/dn/base". *)
+From Coq Require Import List Permutation.
+From Regal Require Import Base.PathModel Model.Version Proofs.PathLemmas Proofs.Version.
+Import ListNotations.
+Local Open Scope nat_scope.
+
+(* The deepest configured directory that contains the file decides, for every map of clean,
+   distinct keys, every directory depth and every file — and nothing else does: a key that is
+   not a component-wise ancestor (e.g. a sibling sharing a name prefix) never matches. *)
+Theorem c20_lookup_selects_deepest :
+  forall (m : list (list str * version)) (ds : list str) (base : str) (default : version),
+  Forall (fun kv => good_comps (fst kv)) m -> NoDup (map fst m) ->
+  good_comps ds -> ~ In SLASH base ->
+  let r := version_from_map (keys_of m) (file_of ds base) default in
+  (forall ks v, In (ks, v) m -> comps_prefix ks ds = true ->
+     (forall ks' v', In (ks', v') m -> comps_prefix ks' ds = true -> length ks' <= length ks) ->
+     r = v) /\
+  ((forall ks v, In (ks, v) m -> comps_prefix ks ds = false) -> r = default).
+Proof. exact lookup_selects_deepest. Qed.
+Print Assumptions c20_lookup_selects_deepest.
+
+(* Go's random map iteration order cannot influence the result. *)
+Theorem c20_iteration_order_irrelevant :
+  forall (m m' : list (list str * version)) ds base default,
+  Forall (fun kv => good_comps (fst kv)) m -> NoDup (map fst m) ->
+  good_comps ds -> ~ In SLASH base -> Permutation m m' ->
+  version_from_map (keys_of m) (file_of ds base) default =
+  version_from_map (keys_of m') (file_of ds base) default.
+Proof. exact lookup_order_irrelevant. Qed.
+Print Assumptions c20_iteration_order_irrelevant.
+
+(* config beats manifest, root beats project-wide: what AllRegoVersions stores for a directory *)
+Theorem c20_config_beats_manifest :
+  forall manifests project roots k,
+  assoc_get (all_rego_versions manifests project roots) k =
+  match last_of roots k with
+  | Some v => Some v
+  | None => match project, str_eqb [] k with
+            | Some v, true => Some v
+            | _, _ => last_of manifests k
+            end
+  end.
+Proof. exact all_rego_versions_precedence. Qed.
+Print Assumptions c20_config_beats_manifest.
+
+Theorem c20_versions_map_keys_distinct :
+  forall manifests project roots, NoDup (map fst (all_rego_versions manifests project roots)).
+Proof. exact all_rego_versions_nodup. Qed.
+Print Assumptions c20_versions_map_keys_distinct.
+
+(* Regression witness: the lookup as it was at the pinned commit (path.Join dropped the trailing
+   separator) claimed the sibling "ab/" for root "a" — fixed in /repo by commit 93c52d1. *)
+Theorem c20_pinned_lookup_refuted :
+  exists m f, version_from_map_pinned m f VUndef <> spec_version m f VUndef.
+Proof. exact pinned_sibling_refuted. Qed.
+Print Assumptions c20_pinned_lookup_refuted.
+
+(* Non-vacuity: the hypotheses of the main theorem are met by a nested-roots example,
+   and the lookup really returns the deeper root's version there. *)
+Example c20_nonvacuous :
+  let a := [97%N] in let b := [98%N] in
+  let m := [([a], V1); ([a; b], V0); ([], V1)] in
+  Forall (fun kv => good_comps (fst kv)) m /\ NoDup (map fst m) /\ good_comps [a; b] /\
+  version_from_map (keys_of m) (file_of [a; b] [112%N]) VUndef = V0.
+Proof.
+  cbn zeta. repeat split.
+  - repeat constructor; try discriminate; intros H; cbn in H; intuition discriminate.
+  - repeat constructor; cbn; intuition discriminate.
+  - repeat constructor; try discriminate; intros H; cbn in H; intuition discriminate.
+Qed.
